@@ -88,6 +88,16 @@ func elem(shape string, j int, c *ctr) jl.Node {
 		return jl.Int(int64(50 + j))
 	case "str":
 		return jl.Str("t" + strconv.Itoa(j))
+	case "nul": // member a: null / absent / present, next to a distinct member b (null-sensitive scripts)
+		switch j % 4 {
+		case 0:
+			return jl.Obj("a", jl.Null(), "b", c.next())
+		case 1:
+			return jl.Obj("b", c.next())
+		case 2:
+			return jl.Obj("a", c.next(), "b", c.next())
+		}
+		return jl.Arr(c.next())
 	case "mm": // for scripts with two multi-valued operands: only a late / off-diagonal pair of a x b is equal
 		switch j % 4 {
 		case 0:
@@ -296,6 +306,40 @@ func matrix(args []string) {
 					emit(3, []jl.Frag{jl.FRoot(), m, s2, jl.FWild()}, d)
 					emit(3, []jl.Frag{jl.FRoot(), m, s2, jl.FNth(0)}, d)
 				}
+			}
+		}
+	}
+	// null-sensitive scripts: a present null member is not an absent one (== null, != null, == Nothing, != Nothing)
+	for _, op := range []string{"eqnull", "nenull", "eqnothing", "nenothing"} {
+		for _, key := range []string{"a", "zz"} {
+			f := jl.FFilter(op, key, jl.Null())
+			for _, ct := range []cont{{"arr", 0}, {"arr", 1}, {"arr", 3}, {"arr", 4}, {"obj", 3}, {"obj", 4}} {
+				c := &ctr{n: 100}
+				d := mkCont(ct, "nul", c)
+				emit(2, []jl.Frag{jl.FRoot(), f}, d)
+				emit(3, []jl.Frag{jl.FRoot(), jl.FChild("p"), f}, jl.Obj("p", d, "q", jl.Int(9999)))
+				emit(2, []jl.Frag{jl.FRoot(), f, jl.FChild("b")}, d)
+				emit(3, []jl.Frag{jl.FRoot(), jl.FNth(-2), f, jl.FWild()}, jl.Arr(d, jl.Int(77)))
+			}
+		}
+	}
+	// child / union-of-names steps over objects of struct shape behind other fragments (embedded + shadowed struct shapes)
+	{
+		c := &ctr{n: 100}
+		so := func() jl.Node { return jl.Obj("a", c.next(), "b", c.next()) }
+		so3 := func() jl.Node { return jl.Obj("a", c.next(), "b", jl.Obj("a", c.next(), "b", c.next()), "c", c.next()) }
+		docs := []jl.Node{so(), so3(), jl.Arr(so(), so3(), c.next()), jl.Obj("p", so(), "q", so3()), jl.Obj("a", so3(), "b", jl.Arr(so(), so()))}
+		paths := [][]jl.Frag{
+			{jl.FRoot(), jl.FChild("a")}, {jl.FRoot(), jl.FChild("A")}, {jl.FRoot(), jl.FChild("b")}, {jl.FRoot(), jl.FChild("B")}, {jl.FRoot(), jl.FChild("c")},
+			{jl.FRoot(), jl.FUnion("a", "b")}, {jl.FRoot(), jl.FUnion("b", "a")}, {jl.FRoot(), jl.FUnion("b", "zz", "a")}, {jl.FRoot(), jl.FChild("b"), jl.FChild("a")},
+			{jl.FRoot(), jl.FChild("b"), jl.FUnion("b", "a")}, {jl.FRoot(), jl.FNth(0), jl.FChild("a")}, {jl.FRoot(), jl.FNth(1), jl.FChild("b"), jl.FChild("b")},
+			{jl.FRoot(), jl.FNth(-2), jl.FUnion("a", "c")}, {jl.FRoot(), jl.FChild("p"), jl.FChild("a")}, {jl.FRoot(), jl.FChild("q"), jl.FChild("b"), jl.FChild("a")},
+			{jl.FRoot(), jl.FChild("q"), jl.FUnion("c", "a")}, {jl.FRoot(), jl.FChild("a"), jl.FChild("b"), jl.FChild("b")}, {jl.FRoot(), jl.FChild("b"), jl.FNth(1), jl.FChild("a")},
+			{jl.FRoot(), jl.FChild("b"), jl.FNth(-1), jl.FUnion("a", "b")}, {jl.FRoot(), jl.FSlice(0, 2, A), jl.FChild("a")}, {jl.FRoot(), jl.FChild("b"), jl.FSlice(0, A, A), jl.FChild("b")},
+		}
+		for _, d := range docs {
+			for _, p := range paths {
+				emit(len(p), p, d)
 			}
 		}
 	}
